@@ -177,6 +177,97 @@ def initial(kind):
     raise KeyError(kind)
 
 
+# ---- reference answers from a pristine interpreter ---------------------------------------------------
+# "a freshly constructed crystal ... would give" is also decided outside this process: comparing with a fresh object built
+# HERE is blind to state shared between objects (class attributes, module-level caches, mutable defaults) - a polluted
+# cache would serve the fresh object the same wrong answer.  For every public state met, a new interpreter that has done
+# nothing else builds the crystal and answers every query once; the answers are kept as plain data for the run.
+_PRISTINE = {}
+
+
+def pristine_dir():
+    import atexit
+    import shutil
+    import tempfile
+
+    d = os.environ.get("VERIF_C14_PRISTINE")
+    if not d or not os.path.isdir(d):
+        d = tempfile.mkdtemp(prefix="c14_pristine_")
+        os.environ["VERIF_C14_PRISTINE"] = d
+        atexit.register(shutil.rmtree, d, True)
+    return d
+
+
+def pristine_main(psfile, out):
+    import pickle
+
+    ps = pickle.load(open(psfile, "rb"))
+    res = {}
+    for op, fn in QUERIES.items():
+        res[op] = xtal.plain(answer(fn, xtal.fresh_from_state(ps)))
+    pickle.dump(res, open(out, "wb"))
+
+
+def pristine_answers(c):
+    import pickle
+    import subprocess
+    import sys
+    from mc.paths import REPO_SRC
+
+    ps = xtal.public_state(c)
+    # keyed by the EXACT public state (no rounding): answers that list equidistant neighbours in floating-point order may
+    # legitimately change their order under a 1e-16 drift of the cell, so every drifted state gets its own reference
+    pd = xtal.digest(repr((ps["direct"].tobytes(), ps["pos"].tobytes(), None if ps["occ"] is None else ps["occ"].tobytes(),
+                           ps["number"], ps["choice"], ps["Z"], ps["labels"])))
+    if pd in _PRISTINE:
+        return _PRISTINE[pd]
+    d = pristine_dir()
+    path = os.path.join(d, pd + ".pkl")
+    if not os.path.exists(path):
+        tmp = "%s.%d" % (path, os.getpid())
+        pickle.dump(ps, open(tmp + ".ps", "wb"))
+        code = "import sys; sys.path[:0] = [%r, %r]; from mc.checks import c14; c14.pristine_main(sys.argv[1], sys.argv[2])" % (
+            os.path.dirname(os.path.dirname(os.path.dirname(os.path.abspath(__file__)))), REPO_SRC)
+        r = subprocess.run([sys.executable, "-B", "-c", code, tmp + ".ps", tmp], capture_output=True, text=True)
+        os.remove(tmp + ".ps")
+        if r.returncode != 0:
+            raise RuntimeError("pristine interpreter failed: " + r.stderr[-400:])
+        os.replace(tmp, path)
+    _PRISTINE[pd] = pickle.load(open(path, "rb"))
+    return _PRISTINE[pd]
+
+
+def sibling(c):
+    """another crystal of the same space group, elements and size (what a badly keyed shared cache would confuse with c):
+    cell 7% larger, every site shifted along the direction that keeps special positions of the R groups special"""
+    ps = xtal.public_state(c)
+    ps["direct"] = ps["direct"] * 1.07
+    shift = np.array([0.0, 0.0, 0.013]) if (ps["choice"] == "H" or ps["number"] == 1) else np.array([0.013, 0.013, 0.013])
+    ps["pos"] = ps["pos"] + shift
+    return xtal.fresh_from_state(ps)
+
+
+def cross_object(part, c, hist, kind):
+    """all queries on a sibling crystal (same process), then all queries on c: c's answers must be the pristine ones"""
+    case = {"structure": kind, "history": list(hist), "op": "sibling_then_all"}
+    try:
+        sib = sibling(c)
+        for fn in QUERIES.values():
+            answer(fn, sib)
+    except Exception as e:
+        part.fail("harness:sibling:%s" % kind, "building / querying the sibling crystal raised %r" % e, case)
+        return
+    pr = pristine_answers(c)
+    for op, fn in QUERIES.items():
+        part.tr()
+        part.trace()
+        try:
+            xtal.compare(xtal.plain(answer(fn, c)), pr[op], tol=1e-7)
+        except xtal.Mismatch as m:
+            part.fail("cross-object:%s:%s" % (op, kind),
+                      "after history %s and the same queries on ANOTHER crystal of the same group and size, %s differs from the answer of a pristine interpreter: %s" % (hist, op, m), case)
+
+
 # ---- one transition ----------------------------------------------------------------------------------
 def answer(fn, c):
     try:
@@ -235,6 +326,12 @@ def step(part, c, op, hist, kind, check=True):
         part.fail("stale:%s:%s" % (op, kind),
                   "after history %s the answer of %s differs from a freshly built crystal with the same cell/space group/asymmetric unit: %s"
                   % (hist, op, m), case)
+    try:
+        xtal.compare(xtal.plain(a1), pristine_answers(c)[op], tol=1e-7)
+    except xtal.Mismatch as m:
+        part.fail("stale-vs-pristine:%s:%s" % (op, kind),
+                  "after history %s the answer of %s differs from the answer a pristine interpreter gives for the same cell/space group/asymmetric unit: %s"
+                  % (hist, op, m), case)
     a2 = answer(fn, c)
     try:
         xtal.compare(a2, a1, tol=1e-9)
@@ -276,6 +373,10 @@ def expand(part, job):
         d = post_digest_holder.get("d") or xtal.state_digest(c)
         part.outcome((op, d))
         part.extra.append((kind, tuple(hist), op, d))
+    # one more transition out of this state: interference from another object living in the same process
+    c = replay_history(kind, hist)
+    cross_object(part, c, hist, kind)
+    part.ev()
 
 
 def aliasing_worker(part, job):
@@ -316,8 +417,11 @@ def run(ctx):
     ctx.rule = ("level-synchronous BFS over operation lists (14 queries with fixed arguments, 2 trigonal switches, deepcopy) on real "
                 "Crystal objects; state = digest of vars(obj) recursively (public fields + properties + all memo attributes); every "
                 "transition compares the answer with a freshly built crystal; distinct = canonical states")
-    ctx.assumptions = ["methods read only instance state reachable from vars(obj) (so equal digests have equal futures)",
+    ctx.assumptions = ["methods read only instance state reachable from vars(obj) (so equal digests have equal futures); state shared between objects is "
+                       "covered separately: every answer is also compared with the answer of a pristine interpreter for the same public state, and every "
+                       "state has a transition that first runs all queries on a sibling crystal (same group, elements, size) in the same process",
                        "exported text is compared through the reference readers (cell, operation set, sites), not byte-wise"]
+    pristine_dir()
     seen = {k: {xtal.state_digest(initial(k)): []} for k in kinds}
     frontier = [(k, []) for k in kinds]
     depth = 0
